@@ -267,6 +267,8 @@ func (cur *FieldMask) addPath(path string, curDesc *thrift_reflection.TypeDescri
 			all := cur.All()
 			ids := []int{}
 			empty := true
+			closed := false
+			sep := true // NOTICE: indexies and ',' must alternate
 			// iter indexies...
 			for it.HasNext() {
 				tok := it.Next()
@@ -280,15 +282,26 @@ func (cur *FieldMask) addPath(path string, curDesc *thrift_reflection.TypeDescri
 					if empty {
 						return errPath(tok, "empty index set")
 					}
+					if sep {
+						return errPath(tok, "isn't integer")
+					}
+					closed = true
 					break
 				}
 				empty = false
 
+				if (typ == pathTypeElem) == sep {
+					return errPath(tok, "unexpected token")
+				}
+				sep = !sep
 				if typ == pathTypeElem {
 					continue
 				}
 
 				if typ == pathTypeAny {
+					if len(ids) > 0 {
+						return errPath(tok, "'*' conflicts with previously settled id")
+					}
 					cur.intMask.Reset()
 					cur.isAll = true
 					all = true
@@ -305,6 +318,9 @@ func (cur *FieldMask) addPath(path string, curDesc *thrift_reflection.TypeDescri
 
 				id := tok.val.Int()
 				ids = append(ids, id)
+			}
+			if !closed {
+				return errPath(it.Next(), "expect ']'")
 			}
 
 			if all {
@@ -357,6 +373,8 @@ func (cur *FieldMask) addPath(path string, curDesc *thrift_reflection.TypeDescri
 			empty := true
 			ids := []int{}
 			strs := []string{}
+			closed := false
+			sep := true // NOTICE: keys and ',' must alternate
 			for it.HasNext() {
 				tok := it.Next()
 				typ := tok.Type()
@@ -369,15 +387,26 @@ func (cur *FieldMask) addPath(path string, curDesc *thrift_reflection.TypeDescri
 					if empty {
 						return errPath(tok, "empty key set")
 					}
+					if sep {
+						return errPath(tok, "expect integer or string or '*' as key")
+					}
+					closed = true
 					break
 				}
 				empty = false
 
+				if (typ == pathTypeElem) == sep {
+					return errPath(tok, "unexpected token")
+				}
+				sep = !sep
 				if typ == pathTypeElem {
 					continue
 				}
 
 				if typ == pathTypeAny {
+					if len(ids) > 0 || len(strs) > 0 {
+						return errPath(tok, "'*' conflicts with previously settled key")
+					}
 					// println("* for ", curDesc.KeyType.Name, ", path:", it.LeftPath())
 					cur.intMask.Reset()
 					cur.strMask.Reset()
@@ -405,6 +434,9 @@ func (cur *FieldMask) addPath(path string, curDesc *thrift_reflection.TypeDescri
 				} else {
 					return errPath(tok, "expect integer or string or '*' as key")
 				}
+			}
+			if !closed {
+				return errPath(it.Next(), "expect '}'")
 			}
 
 			// println("all:", all, "ids:", ids, "strs:", strs, isInt, isStr)
